@@ -891,6 +891,14 @@ class Offsets:
         raises = [tuple(x.conds) for x in sub.exits if x.kind == "raise"]
         if any(isinstance(x, Loop) for x in bemits):
             raise Unsupported("nested loop summary")
+        # a carried integer that the body overwrites without reading its previous value (`end = start + size`) is not a position
+        # that advances: after the loop it holds the value of the last iteration (or its initial value when there was none)
+        lastvals = set()
+        for v, s in list(syms.items()):
+            new, old = benv.get(v), env[v]
+            if isinstance(old, Lin) and isinstance(new, Lin) and s not in new.l and not any(s in repr(x) for x in bemits):
+                lastvals.add(v)
+                del syms[v]
         # strides
         init, stride, mapping = {}, {}, {}
         for v, s in syms.items():
@@ -949,7 +957,11 @@ class Offsets:
                 end = ls("pend")
             post[s] = end
             out_env[v] = Lin(end) if isinstance(env[v], Lin) else Bf(end, None)
+        for v in lastvals:
+            out_env[v] = Opaque(f"last value of {v} in the loop")
         for v in assigned:
+            if v in lastvals:
+                continue
             if v not in syms and v in benv and not (isinstance(st, ast.For) and v in {x.id for x in ast.walk(st.target) if isinstance(x, ast.Name)}):
                 val = benv[v]
                 out_env[v] = val if isinstance(val, Acc) else Opaque(f"last value of {v} in the loop")
